@@ -800,7 +800,13 @@ def _same(x, y):
     e = eq(x, y)
     if isinstance(e, bool):
         return e
-    return z3.is_true(z3.simplify(e.t))
+    if z3.is_true(z3.simplify(e.t)):
+        return True
+    if CTX.sign_oracle is not None:
+        d = Sym.lift(x) - y
+        if isinstance(d, Sym) and CTX.sign_oracle(d.t, True) == 'pos' and CTX.sign_oracle((-d).t, True) == 'pos':
+            return True          # the path condition entails x == y
+    return False
 
 
 def transpose(a):
